@@ -1055,7 +1055,7 @@ pub fn check(ctx: &Ctx) -> Vec<PartReport> {
             ],
         },
     ));
-    let n = ctx.cases(98, 1400);
+    let n = ctx.cases(400, 3000);
     out.push(run_part(
         ctx,
         PartSpec {
